@@ -447,7 +447,9 @@ class World:
         fault = self.plan.get(key)
         arm = self.armed.get(proc.name)
         if fault is None and arm is not None and \
-                (arm["kinds"] is None or kind in arm["kinds"]):
+                (arm["kinds"] is None or kind in arm["kinds"]) and \
+                (arm.get("path") is None or
+                 os.fspath(path).endswith(arm["path"])):
             # "the nth call of one of these kinds from now on"
             arm["nth"] -= 1
             if arm["nth"] <= 0:
